@@ -131,13 +131,32 @@ def gen_case(rng, tier):
         var_kinds.append(kinds)
     isa = {'description': 'c10', 'general': {'address_size': 16, 'endian': de, 'registers': REGS}, 'operand_sets': osets,
            'instructions': instrs_y, 'macros': {'mac': mac_y}}
-    consts = {'kone': rng.randint(0, 200), 'ktwo': rng.randint(0, 60000)}
+    # labels are case sensitive, mnemonics and registers are not: `Kone` / `KTWO` are different constants
+    consts = {'kone': rng.randint(0, 200), 'ktwo': rng.randint(0, 60000), 'Kone': rng.randint(0, 200), 'KTWO': rng.randint(0, 60000)}
+    twin = rng.random() < 0.3
     base = rng.choice([0, 0, 16, 300])
     pre = rng.randint(0, 3)
     invs = []
-    for _ in range(rng.choice([1, 1, 2])):
+    for _ in range(2 if twin else rng.choice([1, 1, 2])):
         kinds = rng.choice(var_kinds)
         forms, texts = [], []
+        if twin and invs:
+            # the same invocation again, its operand text differing only in letter case / blanks: same registers, other constants
+            first = invs[0]
+            for f, t in zip(first['forms'], first['texts']):
+                e = f['e']
+                if e[0] == 'label' and e[1] in ('kone', 'ktwo'):
+                    e2 = ('label', {'kone': 'Kone', 'ktwo': 'KTWO'}[e[1]])
+                    forms.append({'f': f['f'], 'e': e2})
+                    texts.append(t.replace(e[1], e2[1]))
+                elif e[0] == 'label' and e[1].lower() in REGS:
+                    forms.append(f)
+                    texts.append(t.swapcase())
+                else:
+                    forms.append(f)
+                    texts.append(t if not t.startswith('[') else '[ ' + t[1:-1] + ' ]')
+            invs.append({'forms': forms, 'texts': texts})
+            continue
         for k in kinds:
             if k == 'reg':
                 r = gen.rcase(rng, rng.choice(REGS))
@@ -146,6 +165,8 @@ def gen_case(rng, tier):
             else:
                 atom = rng.choice([('num', rng.choice([0, 1, 5, 77, 255, 300, 4000])), ('label', 'kone'), ('label', 'ktwo'),
                                    ('label', 'start'), ('label', 'after'), ('label', 'fwd')])
+                if twin and rng.random() < 0.7:
+                    atom = rng.choice([('label', 'kone'), ('label', 'ktwo')])
                 t = str(atom[1])
                 if k == 'ind':
                     forms.append({'f': 'ind', 'e': atom})
@@ -156,7 +177,7 @@ def gen_case(rng, tier):
         if rng.random() < 0.05 and forms:
             forms.pop(); texts.pop()
         invs.append({'forms': forms, 'texts': texts})
-    return {'isa': isa, 'consts': consts, 'base': base, 'pre': pre, 'invs': invs,
+    return {'isa': isa, 'consts': consts, 'base': base, 'pre': pre, 'invs': invs, 'twin': twin,
             'model_base': {'op': 'macro', 'regs': REGS, 'gs': 0, 'ge': 65535, 'instrs': instrs_m, 'macro': mac_m},
             'templates': [[t for t in y['instructions']] for y in mac_y], 'seed': rng.randrange(1 << 30)}
 
@@ -208,7 +229,7 @@ def expand_text(case, inv, variant):
 
 
 def judge(case, ir, mrs):
-    tags = ['invocations=%d' % len(case['invs'])]
+    tags = ['invocations=%d' % len(case['invs'])] + (['case-twin-invocations'] if case.get('twin') else [])
     det = f'asm={program(case)!r} macros={case["isa"]["macros"]}'[:1500]
     if ir['status'] == 'timeout':
         return {'verdict': Verdict.VIOLATION, 'detail': 'no termination; ' + det, 'tags': tags}
